@@ -247,6 +247,80 @@ theorem arrival_only_if_record_has_no_time (handlerMs : Int) (sc : Scalar)
     · subst hn; exact key.1 (Or.inl hx)
     · simp only [ne_eq, hn, not_false_eq_true, if_true, reduceCtorEq] at h
 
+/-! ### Splunk HEC: the envelope's `time` -/
+
+/-- C16.3c Splunk HEC, AT FULL STRENGTH on the seconds window: an event sent as
+`{"time":<s>.<fff>,"event":{…}}` (number or numeric string; no timestamp key at the envelope's root)
+is stored at the instant s.fff — for every second of the window and every millisecond.  (Before the
+repair `time` was never read: `hec_time_old_counterexample`.) -/
+theorem hec_time_used (s f : Nat) (h : inWindow .sec s) (hf : f < 1000) :
+    hecStored (some (fracText s f)) .absent = .ms ((s : Int) * 1000 + f) := by
+  obtain ⟨q, x, hp, hq⟩ := jpParseFloat_fracText_pos s f (by unfold inWindow at h; omega) h.2 hf
+  have hq' : (q == 0) = false := by simpa using hq
+  have hx := extractNum_fracText s f h.1 h.2 hf
+  have hne : ¬ ((1000 * s + f : Nat) : Int) = 0 := by unfold inWindow at h; omega
+  simp only [hecStored, hecEventTime, hp, hq', Bool.or_self, Bool.false_eq_true, if_false, hx,
+    ingestStored, extractTimeStamp, ne_eq, not_true_eq_false, hne, not_false_eq_true, if_true, Res.ms.injEq]
+  omega
+
+/-- … and whole seconds `{"time":<s>}` are stored as s·1000 ms -/
+theorem hec_time_whole_seconds (s : Nat) (h : inWindow .sec s) :
+    hecStored (some (dec s)) .absent = .ms ((s : Int) * 1000) := by
+  obtain ⟨q, x, hp, hq⟩ := jpParseFloat_dec_pos s (by unfold inWindow at h; omega) h.2
+  have hq' : (q == 0) = false := by simpa using hq
+  have hx : extractNum (dec s) = (s : Int) * 1000 := by
+    rw [extractNum_dec s (by unfold inWindow at h; omega)]
+    exact scaleUnits_sec (s : Int) (by omega) (by unfold inWindow at h; omega)
+  have hne : ¬ ((s : Int) * 1000 = 0) := by unfold inWindow at h; omega
+  simp only [hecStored, hecEventTime, hp, hq', Bool.or_self, Bool.false_eq_true, if_false, hx,
+    ingestStored, extractTimeStamp, ne_eq, not_true_eq_false, hne, not_false_eq_true, if_true]
+
+/-- the abstraction of `hecEventTime` is sound on the window: a whole number of seconds takes the
+integer path of ExtractTimeStamp when re-rendered (`1700000000`) and the float path when written with
+a fraction (`1700000000.000`); both give the same instant. -/
+theorem hec_whole_seconds_both_paths (s : Nat) (h : inWindow .sec s) :
+    extractNum (dec s) = extractNum (fracText s 0) := by
+  rw [extractNum_fracText s 0 h.1 h.2 (by omega), extractNum_dec s (by unfold inWindow at h; omega),
+    scaleUnits_sec (s : Int) (by omega) (by unfold inWindow at h; omega)]
+  omega
+
+/-- a timestamp key at the envelope's root still wins (the behaviour before the repair is kept) -/
+theorem hec_root_timestamp_wins (t : Option (List Char)) (enc : Enc) (u : TUnit) (v : Nat) (lo : Option Int)
+    (h : inWindow u v) : hecStored t (scalarOf enc v lo) = .ms ((toMillis u v : Nat) : Int) :=
+  record_time_wins (hecEventTime t) enc u v lo h
+
+/-- the arrival time is used only when the envelope has no time of its own: neither a usable root
+timestamp nor a usable `time` -/
+theorem hec_arrival_only_without_time (t : Option (List Char)) (sc : Scalar)
+    (h : hecStored t sc = .now) : carriesNoTime sc ∧ (extractTimeStamp sc = .now ∨ hecEventTime t = 0) := by
+  refine ⟨arrival_only_if_record_has_no_time _ sc h, ?_⟩
+  unfold hecStored ingestStored at h
+  cases hx : extractTimeStamp sc with
+  | now => exact Or.inl rfl
+  | ms n =>
+    rw [hx] at h
+    by_cases hn : n = 0
+    · by_cases ht : hecEventTime t = 0
+      · exact Or.inr ht
+      · simp only [hn, ne_eq, not_true_eq_false, if_false, ht, not_false_eq_true, if_true, reduceCtorEq] at h
+    · simp only [ne_eq, hn, not_false_eq_true, if_true, reduceCtorEq] at h
+
+/-- an envelope without `time` and without root timestamp is stored at its arrival -/
+example : hecStored none .absent = .now := by decide
+
+/-- the behaviour BEFORE the repair violated the property: the witness `{"time":1700000000.123,…}` was
+stored under its arrival time … -/
+theorem hec_time_old_counterexample :
+    ¬ (∀ s f : Nat, inWindow .sec s → f < 1000 →
+        hecStoredOld (some (fracText s f)) .absent = .ms ((s : Int) * 1000 + f)) := by
+  intro hall
+  have := hall 1700000000 123 (by unfold inWindow; omega) (by omega)
+  simp [hecStoredOld, ingestStored, extractTimeStamp] at this
+
+/-- … and the repaired code stores the witness at 1700000000123 -/
+example : hecStored (some (fracText 1700000000 123)) .absent = .ms 1700000000123 :=
+  hec_time_used 1700000000 123 (by unfold inWindow; omega) (by omega)
+
 /-! ## (4) the thresholds separate the windows -/
 
 /-- the unit that the threshold tests select (the cascade of ConvertTimestampToMillis /
